@@ -86,10 +86,12 @@ CONSTANTS
     HeartbeatCandidates(_, _),  \* <<wallet, window>> -> possible heartbeat draws (subset of BOOLEAN)
     Proposable,       \* action types a proposal generator may return besides Noop
     LeaderFaults,     \* subset of {"silent", "disallowed", "equivocate", "impersonate"}
-    Loss,             \* coordination / announcement / done messages may be lost
+    FaultyWallets,    \* wallets whose windows may have a faulty leader / impersonators
+    Loss,             \* wallets whose coordination / announcement / done messages may be lost
     Offline,          \* a node may miss a window (its block channel skipped the block)
     SeedFailures,     \* GetBlockHashByNumber(coordination block - 32) may fail
-    Slow,             \* chain calls inside execute() may take arbitrarily long
+    Slow,             \* wallets whose execute() may stay arbitrarily long in a chain call
+    Hazard,           \* "none"; negative configurations: "queue" | "startFromNow" (see the end)
     Lateness,         \* see above
     SignableActions,  \* action types whose execute() is followed up to signing (others end at validation)
     \* ---- block constants, extracted from the built code (XWLConsts.tla)
@@ -113,7 +115,7 @@ VARIABLES
     dones,      \* signing done messages broadcast so far
     executed,   \* history: [m, w, k, p] for every execute() entered
     signedH,    \* history: [m, w, k, p, n, end, at] for every signature returned by a loop
-    lastD       \* history: the last dispatch decision [m, w, k, res, had]                [C25 lastD]
+    lastD       \* history: m -> w -> the last dispatch decision [k, res, had]              [C25 lastD]
 
 vars == <<now, lastWin, spawned, co, leader, hb, net, ret, disp, cres, dres, ann, sel, dones,
           executed, signedH, lastD>>
@@ -200,7 +202,7 @@ Init ==
     /\ dres = [m \in Members |-> [w \in Wallets |-> [k \in Windows |-> "none"]]]
     /\ ann = {} /\ sel = <<>> /\ dones = {}
     /\ executed = {} /\ signedH = {}
-    /\ lastD = [m |-> 0, w |-> "none", k |-> 0, res |-> "none", had |-> FALSE]
+    /\ lastD = [m \in Members |-> [w \in Wallets |-> [k |-> 0, res |-> "none", had |-> FALSE]]]
 
 WalletsOfNode(m) == {w \in Wallets : m \in MembersOf[w]}
 SetCres(m, w, k, v) == cres' = [cres EXCEPT ![m][w][k] = v]
@@ -260,7 +262,7 @@ Result(m, w, k, p, ldr, faults) == [m |-> m, w |-> w, k |-> k, p |-> p, leader |
 GeneratorOutputs(w, k) ==
     {a \in Proposable \cup {"Noop"} :
         \/ a \in AllowedOf(w, k)
-        \/ "disallowed" \in LeaderFaults}
+        \/ ("disallowed" \in LeaderFaults /\ w \in FaultyWallets)}
 
 (* executeLeaderRoutine: the generator returns a proposal, the message is  *)
 (* broadcast from the leader's lowest seat (retransmitted until the active *)
@@ -280,7 +282,7 @@ LeaderRoutine(m, w, a) ==
 (* executeLeaderRoutine fails (the generator failed twice, Send failed):   *)
 (* nothing is broadcast, coordinate() returns an error, no result          *)
 LeaderRoutineFails(m, w) ==
-    /\ "silent" \in LeaderFaults
+    /\ "silent" \in LeaderFaults /\ w \in FaultyWallets
     /\ co[m][w].st = "lead"
     /\ SetCres(m, w, co[m][w].k, "leaderr")
     /\ co' = [co EXCEPT ![m][w] = FreeCo]
@@ -288,7 +290,7 @@ LeaderRoutineFails(m, w) ==
 
 (* adversarial leader: a second, different proposal for the same window    *)
 LeaderEquivocates(m, w, k, a) ==
-    /\ "equivocate" \in LeaderFaults
+    /\ "equivocate" \in LeaderFaults /\ w \in FaultyWallets
     /\ leader[w][k] = m
     /\ a \in Proposable \cup {"Noop"}
     /\ \E x \in net : x.w = w /\ x.msg.k = k /\ x.msg.from = m /\ x.msg.p.v = 1 /\ x.msg.p.a # a
@@ -299,7 +301,7 @@ LeaderEquivocates(m, w, k, a) ==
 (* adversarial member x that is not the leader raises its own proposal,    *)
 (* from its own seat or claiming the leader's seat                         *)
 Impersonate(x, w, k, seat, a) ==
-    /\ "impersonate" \in LeaderFaults
+    /\ "impersonate" \in LeaderFaults /\ w \in FaultyWallets
     /\ x \in MembersOf[w] /\ leader[w][k] # 0 /\ x # leader[w][k]
     /\ seat \in {x, leader[w][k]}
     /\ a \in Proposable
@@ -346,23 +348,24 @@ FollowerRoutineTimeout(m, w) ==
 (* of different windows may be processed in any order) -> handle*Proposal  *)
 (* -> wallet.go dispatch.  The step is the critical section of dispatch    *)
 (* (C25 AtomicDispatch): a busy wallet drops the action, it is not queued. *)
+StartAt(k) == IF Hazard = "startFromNow" THEN now + DurationBlocks ELSE StartBlock(k)
 NewAct(r) ==
     [NoAct EXCEPT !.k = r.k, !.p = r.p, !.st = "spawned",
-                  !.start = StartBlock(r.k),                       \* result.window.endBlock()
-                  !.expiry = ExpiryOf(r.p.a, StartBlock(r.k))]     \* + proposal.ValidityBlocks()
+                  !.start = StartAt(r.k),                          \* result.window.endBlock()
+                  !.expiry = ExpiryOf(r.p.a, StartAt(r.k))]        \* + proposal.ValidityBlocks()
 
 ProcessCoordinationResult(r) ==
     /\ r \in ret
-    /\ ret' = ret \ {r}
+    /\ ret' = IF Hazard = "queue" /\ r.p.a # "Noop" /\ disp[r.m][r.w].st # "none" THEN ret ELSE ret \ {r}
     /\ IF r.p.a = "Noop"
           THEN /\ SetDres(r.m, r.w, r.k, "noop")
                /\ UNCHANGED <<disp, lastD>>
           ELSE IF disp[r.m][r.w].st # "none"
           THEN /\ SetDres(r.m, r.w, r.k, "busy")                   \* errWalletBusy
-               /\ lastD' = [m |-> r.m, w |-> r.w, k |-> r.k, res |-> "busy", had |-> TRUE]
+               /\ lastD' = [lastD EXCEPT ![r.m][r.w] = [k |-> r.k, res |-> "busy", had |-> TRUE]]
                /\ UNCHANGED disp
           ELSE /\ SetDres(r.m, r.w, r.k, "ok")
-               /\ lastD' = [m |-> r.m, w |-> r.w, k |-> r.k, res |-> "ok", had |-> FALSE]
+               /\ lastD' = [lastD EXCEPT ![r.m][r.w] = [k |-> r.k, res |-> "ok", had |-> FALSE]]
                /\ disp' = [disp EXCEPT ![r.m][r.w] = NewAct(r)]
     /\ UNCHANGED <<now, lastWin, spawned, co, leader, hb, net, cres, ann, sel, dones, executed, signedH>>
 
@@ -447,7 +450,7 @@ LoopCollectReady(m, w, R, I) ==
     /\ LET a == disp[m][w] IN
          /\ now >= AnnEndOf(SS(a), a.att) \/ LoopCtxDone(a)
          /\ m \in R /\ R \subseteq Announcers(w, a)
-         /\ Loss \/ R = Announcers(w, a)
+         /\ w \in Loss \/ R = Announcers(w, a)
          /\ IF LoopCtxDone(a)
                THEN /\ I = {} /\ disp' = [disp EXCEPT ![m][w] = GiveUp(a)] /\ UNCHANGED sel
             ELSE IF Cardinality(R) < Threshold[w]
@@ -481,6 +484,15 @@ AttemptOk(m, w) ==
 (* the attempt function or signalDone failed: `continue`                    *)
 AttemptFails(m, w) ==
     /\ disp[m][w].st = "signing" /\ disp[m][w].stage = "run"
+    /\ disp' = [disp EXCEPT ![m][w].stage = "top"]
+    /\ UNCHANGED <<now, lastWin, spawned, co, leader, hb, net, ret, cres, dres, ann, sel, dones, executed, signedH, lastD>>
+
+(* the attempt's context ended (attemptCtx is cancelled on the timeout      *)
+(* block or with the loop) before the protocol completed: signing.Execute   *)
+(* returns an error: `continue`                                             *)
+AttemptTimeout(m, w) ==
+    /\ disp[m][w].st = "signing" /\ disp[m][w].stage = "run"
+    /\ now >= TimeoutOf(SS(disp[m][w]), disp[m][w].att) \/ LoopCtxDone(disp[m][w])
     /\ disp' = [disp EXCEPT ![m][w].stage = "top"]
     /\ UNCHANGED <<now, lastWin, spawned, co, leader, hb, net, ret, cres, dres, ann, sel, dones, executed, signedH, lastD>>
 
@@ -562,6 +574,7 @@ DoLoopStartAnnounce   == \E m \in Members, w \in Wallets : LoopStartAnnounce(m, 
 DoLoopCollectReady    == \E m \in Members, w \in Wallets, R \in SUBSET Members, I \in SUBSET Members : LoopCollectReady(m, w, R, I)
 DoAttemptOk           == \E m \in Members, w \in Wallets : AttemptOk(m, w)
 DoAttemptFails        == \E m \in Members, w \in Wallets : AttemptFails(m, w)
+DoAttemptTimeout      == \E m \in Members, w \in Wallets : AttemptTimeout(m, w)
 DoDoneCheckOk         == \E m \in Members, w \in Wallets : DoneCheckOk(m, w)
 DoDoneCheckTimeout    == \E m \in Members, w \in Wallets : DoneCheckTimeout(m, w)
 DoPostSigning         == \E m \in Members, w \in Wallets : PostSigning(m, w)
@@ -571,16 +584,40 @@ DoRelease             == \E m \in Members, w \in Wallets : Release(m, w)
 Prompt ==
     \/ (~Offline /\ DoWatchWindow)
     \/ DoCoordinateBusy \/ DoCoordinate \/ DoLeaderRoutine
-    \/ (~Loss /\ DoFollowerRoutineMessage)
+    \/ (\E m \in Members, w \in Wallets \ Loss, x \in net : FollowerRoutineMessage(m, w, x))
     \/ DoFollowerRoutineTimeout \/ DoProcessCoordinationResult \/ DoExecBegin
-    \/ (~Slow /\ (DoValidateFails \/ DoValidateOk))
+    \/ (\E m \in Members, w \in Wallets \ Slow : ValidateFails(m, w) \/ ValidateOk(m, w))
     \/ DoLoopBeginAttempt \/ DoLoopStartAnnounce \/ DoLoopCollectReady
-    \/ DoAttemptOk \/ DoDoneCheckOk \/ DoDoneCheckTimeout \/ DoPostSigning \/ DoRelease
+    \/ DoAttemptOk \/ DoAttemptTimeout \/ DoDoneCheckOk \/ DoDoneCheckTimeout \/ DoPostSigning \/ DoRelease
 \* (AttemptFails is an environment failure, never forced)
+
+\* ~ENABLED Prompt written out (TLC evaluates it much faster; QuietExact is
+\* checked as an invariant in the configurations)
+Quiet ==
+    /\ spawned = {} /\ ret = {}
+    /\ Offline \/ \A m \in Members, k \in Windows : CB(k) <= now => CB(k) <= lastWin[m]
+    /\ \A m \in Members, w \in Wallets :
+        LET c == co[m][w]
+            a == disp[m][w] IN
+        /\ c.st # "lead"
+        /\ c.st = "follow" =>
+              /\ now < ActiveEnd(c.k)
+              /\ w \in Loss \/ \A x \in net : x.w = w => x \in c.seen
+        /\ a.st \notin {"spawned", "post", "ended"}
+        /\ a.st = "validating" => w \in Slow
+        /\ a.st = "signing" =>
+              /\ a.stage # "top"
+              /\ ~LoopCtxDone(a)
+              /\ a.stage = "waitStart" => now < AnnStartOf(SS(a), a.att)
+              /\ a.stage = "announcing" => now < AnnEndOf(SS(a), a.att)
+              /\ a.stage \in {"run", "doneWait"} => now < TimeoutOf(SS(a), a.att)
+              /\ a.stage = "run" => ~\A i \in a.I : Participating(w, a, i)
+              /\ a.stage = "doneWait" => {d.m : d \in DonesOf(w, a)} # a.I
+QuietExact == Quiet <=> ~ENABLED Prompt
 
 Tick ==
     /\ Future # {}
-    /\ Lateness \/ ~ENABLED Prompt
+    /\ Lateness \/ Quiet
     /\ TickTo(MinOf(Future))
 
 Next == \/ DoWatchWindow \/ DoCoordinateBusy \/ DoCoordinateSeedFails \/ DoCoordinate
@@ -588,7 +625,7 @@ Next == \/ DoWatchWindow \/ DoCoordinateBusy \/ DoCoordinateSeedFails \/ DoCoord
         \/ DoFollowerRoutineMessage \/ DoFollowerRoutineTimeout
         \/ DoProcessCoordinationResult \/ DoExecBegin \/ DoValidateFails \/ DoUnstaking \/ DoValidateOk
         \/ DoLoopBeginAttempt \/ DoLoopStartAnnounce \/ DoLoopCollectReady
-        \/ DoAttemptOk \/ DoAttemptFails \/ DoDoneCheckOk \/ DoDoneCheckTimeout
+        \/ DoAttemptOk \/ DoAttemptFails \/ DoAttemptTimeout \/ DoDoneCheckOk \/ DoDoneCheckTimeout
         \/ DoPostSigning \/ DoRelease \/ Tick
 
 Spec == Init /\ [][Next]_vars
@@ -600,7 +637,7 @@ Fairness ==
     /\ WF_vars(DoProcessCoordinationResult) /\ WF_vars(DoExecBegin)
     /\ WF_vars(DoValidateFails \/ DoValidateOk)
     /\ WF_vars(DoLoopBeginAttempt) /\ WF_vars(DoLoopStartAnnounce) /\ WF_vars(DoLoopCollectReady)
-    /\ WF_vars(DoAttemptOk \/ DoAttemptFails) /\ WF_vars(DoDoneCheckOk) /\ WF_vars(DoDoneCheckTimeout)
+    /\ WF_vars(DoAttemptOk) /\ WF_vars(DoAttemptTimeout) /\ WF_vars(DoDoneCheckOk) /\ WF_vars(DoDoneCheckTimeout)
     /\ WF_vars(DoPostSigning) /\ WF_vars(DoRelease)
 LiveSpec == Spec /\ Fairness
 
@@ -650,8 +687,9 @@ DispatchNeedsResult ==
     \A m \in Members, w \in Wallets, k \in Windows : dres[m][w][k] # "none" => cres[m][w][k] = "result"
 (* ... exactly when the wallet is busy (C25 BusyIffEntry on every node)     *)
 BusyIffOccupied ==
-    /\ (lastD.res = "busy") => lastD.had
-    /\ (lastD.res = "ok") => ~lastD.had
+    \A m \in Members, w \in Wallets :
+        /\ (lastD[m][w].res = "busy") => lastD[m][w].had
+        /\ (lastD[m][w].res = "ok") => ~lastD[m][w].had
 (* action property: an action appears only through an accepted dispatch of  *)
 (* a result that was still undecided, whatever ended before                 *)
 NoQueue ==
@@ -660,6 +698,10 @@ NoQueue ==
               /\ disp[m][w].st = "none"
               /\ dres[m][w][disp'[m][w].k] = "none" /\ dres'[m][w][disp'[m][w].k] = "ok"
               /\ \E r \in ret : r \notin ret' /\ r.m = m /\ r.w = w /\ r.k = disp'[m][w].k /\ r.p = disp'[m][w].p]_vars
+(* a dropped result stays dropped                                            *)
+DroppedStaysDropped ==
+    [][\A m \in Members, w \in Wallets, k \in Windows :
+          dres[m][w][k] \in {"busy", "noop"} => dres'[m][w][k] = dres[m][w][k]]_vars
 (* one step changes the dispatcher state of at most one <<node, wallet>>    *)
 WalletsIndependent ==
     [][Cardinality({<<m, w>> \in Members \X Wallets : disp[m][w] # disp'[m][w]}) <= 1]_vars
@@ -733,6 +775,15 @@ FaultsSound ==
         /\ LeaderFaults = {} => r.faults = <<>>
 
 ---------------------------------------------------------------------------
+(* Hazard grains (negative configurations TLC must refute):                *)
+(*   LeaderFaults containing "equivocate"  SameProposal fails (while       *)
+(*                   SignatureNeedsQuorumOnSameProposal still holds)       *)
+(*   Hazard = "queue"         the result of a busy wallet stays queued and *)
+(*                   is dispatched once the wallet is free: NoQueue and    *)
+(*                   DroppedStaysDropped fail                              *)
+(*   Hazard = "startFromNow"  the start block is taken from the block at   *)
+(*                   which the member happens to process the result:       *)
+(*                   WindowsCoincide fails                                 *)
 (* Liveness (LiveSpec).                                                    *)
 
 (* a wallet released after the action's end can take the next window        *)
